@@ -5266,12 +5266,18 @@ fn write_section_headers(out: &mut [u8], layout: &ElfLayout) -> Result {
         entry.sh_type.set(e, sh_type);
 
         // TODO: Sections are always uncompressed and the output compression is not supported yet.
+        // The section header at index 0 must be all zeros apart from the fields used for extended
+        // numbering.
         entry.sh_flags.set(
             e,
-            output_sections
-                .section_flags(section_id)
-                .without(shf::COMPRESSED)
-                .raw(),
+            if section_type == sht::NULL {
+                0
+            } else {
+                output_sections
+                    .section_flags(section_id)
+                    .without(shf::COMPRESSED)
+                    .raw()
+            },
         );
 
         let name = layout.output_sections.name(section_id).with_context(|| {
@@ -5304,7 +5310,7 @@ fn write_section_headers(out: &mut [u8], layout: &ElfLayout) -> Result {
 
         entry.sh_addr.set(
             e,
-            if layout.symbol_db.args.should_output_partial_object() {
+            if layout.symbol_db.args.should_output_partial_object() || section_type == sht::NULL {
                 0
             } else {
                 section_layout.mem_offset
